@@ -13,5 +13,8 @@ python3 tools/gen.py overlay --repo /repo
    -overlay "$VERIF_DIR/.build/overlay.json" -o "$VERIF_DIR/.build/bin/chfmc.warm.test" ./internal/zzverif)
 (cd /repo && go1.26.8 test -c -race -trimpath -tags verif -vet=off -modfile "$VERIF_DIR/.build/alt.mod" \
    -overlay "$VERIF_DIR/.build/overlay.json" -o "$VERIF_DIR/.build/bin/chfmc.warm.test" ./internal/zzverif)
+python3 tools/gen.py overlay --real --repo /repo
+(cd /repo && go1.26.8 test -c -trimpath -tags verif -vet=off -modfile "$VERIF_DIR/.build/alt-real.mod" \
+   -overlay "$VERIF_DIR/.build/overlay-real.json" -o "$VERIF_DIR/.build/bin/chfmc.warm.test" ./internal/zzverif)
 rm -f .build/bin/chfmc.warm.test
 echo "setup done"
